@@ -1753,6 +1753,7 @@ package sio
 // been acknowledged or discarded removes nothing and calls nothing.
 //@ func (*clientPacketQueue).addToQueue$1
 //@   opt safety off
+//@   requires !held(pq.mu)
 //@   requires pq != nil && pq.debug != nil && pq.socket != nil && pq.socket.config != nil && packet != nil && packet.mu != nil && len(args) >= 1
 //@   ghost pops int = 0
 //@   ghost usercalls int = 0
@@ -1763,6 +1764,7 @@ package sio
 //@     update pops = pops + 1
 //@   callsite Call skip
 //@     requires pops == 1 && usercalls == 0 && haveAck [C03.retry.callback.only.with.the.removal]
+//@     requires !held(pq.mu) [C16.retry.callback.called.without.the.queue.lock]
 //@     update usercalls = usercalls + 1
 //@   ensures usercalls <= 1 && pops <= 1 [C03.retry.one.outcome.handled]
 //@   ensures !(old(len(pq.queuedPackets)) >= 1 && old(pq.queuedPackets[0]) == packet) ==> pops == 0 && usercalls == 0 [C03.retry.stale.outcome.ignored]
@@ -1881,8 +1883,8 @@ package sio
 //@     requires !wheld(s.acksMu) [C16.cli.timed.ack.function.validated.before.locking]
 //@   callsite (*clientSocket).nextAckID skip
 // C08 (client): once the socket knows its private session id, the CONNECT packet of every later connection presents
-// the id and the last offset (as a pointer to the object that holds them: the encoder takes nothing else - that part is
-// shown by the replay sio_c08_client_recovery, the contract language has no map types), and the packet is always sent.
+// the id and the last offset as a POINTER to the object that holds them (the encoder takes nothing else), and the
+// packet is always sent.
 //@ func (*clientSocket).sendConnectPacket
 //@   opt safety off
 //@   requires s != nil
@@ -1896,5 +1898,6 @@ package sio
 //@   callsite onError skip
 //@   callsite (*clientSocket).sendControlPacket go
 //@     requires arg0 == parser.PacketTypeConnect && sent == 0 [C08.client.connect.sent.once]
+//@     requires haspid ==> ispointer(arg1) [C08.client.connect.presents.pid.and.offset.by.pointer]
 //@     update sent = sent + 1
 //@   ensures sent == 1 [C08.client.connect.always.sent]
